@@ -136,6 +136,16 @@ def rule_r2(ctx) -> List[R.Inst]:
             for k in n.keywords:
                 if k.arg == "speed" and isinstance(k.value, ast.Lambda):
                     sp = k.value
+                elif k.arg == "speed" and isinstance(n.func, ast.Attribute) and isinstance(n.func.value, ast.Name):
+                    # vectorised form: <frame>.assign(speed=<expr over the frame's columns>), the expression possibly named first
+                    v_ = k.value
+                    if isinstance(v_, ast.Name):
+                        ds_ = [x.value for x in walk_no_nested(fn.node) if isinstance(x, ast.Assign) and len(x.targets) == 1 and
+                               isinstance(x.targets[0], ast.Name) and x.targets[0].id == v_.id]
+                        v_ = ds_[0] if len(ds_) == 1 else v_
+                    if not isinstance(v_, ast.Name):
+                        sp = ast.copy_location(ast.Lambda(args=ast.arguments(posonlyargs=[], args=[ast.arg(arg=n.func.value.id)], kwonlyargs=[],
+                                                                             kw_defaults=[], defaults=[]), body=v_), k.value)
     bpm_var = None
     for n in walk_no_nested(fn.node):
         if isinstance(n, ast.Assign) and isinstance(n.targets[0], ast.Name) and any(
@@ -217,7 +227,7 @@ def rule_r2(ctx) -> List[R.Inst]:
         insts.append(R.viol(rid, "sorted-before-fill", file, bad[0].line,
                             f"'{bad[0].what}' propagates the active value along the rows, which are not sorted by time here "
                             f"({bad[0].tags[0]})", construct=f"{bad[0].what} on {bad[0].tags[0]}"))
-    elif und or len(fills) < 6:
+    elif und or not fills:
         insts.append(R.undec(rid, "sorted-before-fill", file, fn.node.lineno, f"{len(fills)} fill/diff sites, {len(und)} unresolved"))
     else:
         insts.append(R.ok(rid, "sorted-before-fill", file, fills[0].line, idiom=f"{len(fills)} fill/diff sites on offset-sorted frames"))
